@@ -8,6 +8,7 @@ import re
 import vfcore
 
 TOKEN = re.compile(rb'"(?:[^"\\\n]|\\.)*"|@?[A-Za-z_][A-Za-z_0-9]*|\d+\.?\d*(?:[eE][-+]?\d+)?|\s+|.', re.S)
+IDENT = re.compile(rb"[A-Za-z_][A-Za-z_0-9]*")
 HOSTILE_NUMBERS = [b"0", b"-1", b"1e308", b"1e-320", b"nan", b"inf", b"-0", b"4294967296", b"18446744073709551616",
                    b"99999999999999999999999", b"0x10", b"1e", b".", b"1.e+", b"-", b"1e99999"]
 HOSTILE_BYTES = [b"\x00", b"\xff", b"\xfe\xff", b"\xe2\x82", b"\r", b"\t", b"\\", b"\"", b"'", b"/*", b"*/", b"//", b"{", b"}", b";",
@@ -20,7 +21,7 @@ def tokens(data):
 
 def mutate(g, data, corpus, dictionary, max_len=65536):
     """one mutated input (bytes) from `data`"""
-    kind = g.choice(["byte", "byte", "token", "token", "token", "keyword", "keyword", "splice", "number", "truncate", "random", "nest"])
+    kind = g.choice(["byte", "byte", "token", "token", "token", "keyword", "keyword", "splice", "number", "truncate", "random", "nest", "alias", "alias"])
     nmut = g.choice([1, 1, 1, 2, 3, 5, 8])
     d = bytearray(data)
     if kind == "random":
@@ -60,6 +61,19 @@ def mutate(g, data, corpus, dictionary, max_len=65536):
         op, cl = g.choice([(b"{", b"}"), (b"(", b")"), (b"[", b"]"), (b"<", b">"), (b"{", b"")])
         t[pos:pos] = [op * depth + cl * depth]
         return kind, b"".join(t)[:max_len * 2]
+    if kind == "alias":
+        # make a name refer to another name of the same input (self references, duplicated or undefined names): an identifier or
+        # the content of a quoted string is replaced by one found close to it (half of the time) or anywhere in the file
+        idx = [i for i, x in enumerate(t) if IDENT.fullmatch(x) or (len(x) > 2 and x[:1] == b'"' and x[-1:] == b'"')]
+        for _ in range(nmut):
+            if len(idx) < 2:
+                break
+            i = g.choice(idx)
+            near = [j for j in idx if j != i and abs(j - i) <= 12]
+            j = g.choice(near) if near and g.random() < 0.5 else g.choice(idx)
+            src = t[j][1:-1] if t[j][:1] == b'"' else t[j]
+            t[i] = (b'"' + src + b'"') if t[i][:1] == b'"' else src
+        return kind, b"".join(t)[:max_len]
     for _ in range(nmut):
         pos = g.randint(0, len(t) - 1)
         if kind == "token":
@@ -113,3 +127,26 @@ def outcome_class(r):
     txt = (r.err + r.out)[-400:]
     m = re.search(r"([A-Za-z_:]+)::?([A-Za-z_]+)\s*:", txt)
     return "error:" + (m.group(1)[-30:] if m else "other")
+
+
+KEYWORD_SHAPES = [b";", b" {", b" {};", b" x;", b' "a";', b" 1.e-8;", b" <", b"", b" {x: 1};", b" x = 1;"]
+
+
+def keyword_sweep(g, keywords, bases, thorough):
+    """systematic part of the keyword-aware fuzz: every keyword of a dictionary placed (a) alone after the header of a
+    minimal input, (b) right after the header of a real input, (c) at the end of a real input, followed by a few argument
+    shapes.  `bases` = (minimal header, real input) as bytes; the real input is split after its first ';'.
+    quick: one (placement, shape) per keyword drawn by g; thorough: all placements x 4 shapes.  -> list of (label, bytes)"""
+    head, real = bases
+    cut = real.find(b";") + 1
+    out = []
+    for kw in keywords:
+        places = [("bare", head + b"\n" + kw + b"%s\n"), ("begin", real[:cut] + b"\n" + kw + b"%s\n" + real[cut:]), ("end", real + b"\n" + kw + b"%s\n")]
+        if thorough:
+            for pn, tpl in places:
+                for sh in g.sample(KEYWORD_SHAPES, 4):
+                    out.append(("%s/%s" % (kw.decode(), pn), tpl.replace(b"%s", sh, 1)))
+        else:
+            pn, tpl = g.choice(places)
+            out.append(("%s/%s" % (kw.decode(), pn), tpl.replace(b"%s", g.choice(KEYWORD_SHAPES), 1)))
+    return out
